@@ -42,17 +42,17 @@ def reg(p):
     PROPS[p.pid] = p
 
 
-reg(Prop('C01', lambda r, i, t: pc.gen_item(r, i, t, 'C01'), pc.eval_C01, 8000, 120000, RULE_COMPUTE, ASSUME_COMPUTE,
+reg(Prop('C01', lambda r, i, t: pc.gen_item(r, i, t, 'C01'), pc.eval_C01, 8000, 600000, RULE_COMPUTE, ASSUME_COMPUTE,
          ['C01_run_partition', 'C01_step_adds_exactly', 'C01_assigned_iff', 'C01_dropped_whole', 'C01_assigned_once', 'C01_default_min_lt', 'C01_default_min_old_iff', 'C01_default_min_old_witness']))
-reg(Prop('C02', lambda r, i, t: pc.gen_item_C02(r, i, t, 'C02'), pc.eval_C02, 6000, 80000, RULE_COMPUTE, ASSUME_COMPUTE,
+reg(Prop('C02', lambda r, i, t: pc.gen_item_C02(r, i, t, 'C02'), pc.eval_C02, 6000, 300000, RULE_COMPUTE, ASSUME_COMPUTE,
          ['C02_arity', 'C02_iteration_is_prefix_order', 'C02_parent_before_child', 'C02_temp_ids_unique', 'C02_final_ids']))
-reg(Prop('C03', lambda r, i, t: pc.gen_item(r, i, t, 'C03'), pc.eval_C03, 6000, 80000, RULE_COMPUTE, ASSUME_COMPUTE,
+reg(Prop('C03', lambda r, i, t: pc.gen_item(r, i, t, 'C03'), pc.eval_C03, 6000, 400000, RULE_COMPUTE, ASSUME_COMPUTE,
          ['C03_all_connected', 'C03_roots_closed', 'C03_contour', 'C03_branch_own_le_sub', 'C03_trunk_eq_components']))
-reg(Prop('C04', lambda r, i, t: pc.gen_item(r, i, t, 'C04'), pc.eval_C04, 8000, 120000, RULE_COMPUTE, ASSUME_COMPUTE,
+reg(Prop('C04', lambda r, i, t: pc.gen_item(r, i, t, 'C04'), pc.eval_C04, 8000, 600000, RULE_COMPUTE, ASSUME_COMPUTE,
          ['C04_new_leaf', 'C04_join_one', 'C04_insignificant_iff', 'C04_branch', 'C04_one_remains', 'C04_none_remains', 'C04_unique_of_distinct', 'C04_minDelta_merge', 'C04_minNpix', 'C04_allTrue', 'C04_seeds_exact']))
-reg(Prop('C05', lambda r, i, t: pc.gen_item(r, i, t, 'C05'), pc.eval_C05, 6000, 80000, RULE_COMPUTE, ASSUME_COMPUTE,
+reg(Prop('C05', lambda r, i, t: pc.gen_item(r, i, t, 'C05'), pc.eval_C05, 6000, 400000, RULE_COMPUTE, ASSUME_COMPUTE,
          ['C05_parented_leaf_significant', 'C05_meeting_pixel', 'C05_builtin', 'C05_orphan_leaf', 'C05_leaf_peak_regmax', 'C05_leaves_distinct_maxima', 'C05_regmax_has_leaf']))
-reg(Prop('C06', lambda r, i, t: pc.gen_item_C06(r, i, t, 'C06'), pc.eval_C06, 5000, 60000, RULE_COMPUTE, ASSUME_COMPUTE,
+reg(Prop('C06', lambda r, i, t: pc.gen_item_C06(r, i, t, 'C06'), pc.eval_C06, 5000, 250000, RULE_COMPUTE, ASSUME_COMPUTE,
          ['C06_label_iff', 'C06_unlabelled_iff', 'C06_indices_own', 'C06_indices_subtree', 'C06_npix_subtree', 'C06_vmax_add', 'C06_vmin_add', 'C06_vmax_merge', 'C06_vmin_merge', 'C06_vmax_is_max', 'C06_vmin_is_min', 'C06_peak_own', 'C06_peak_subtree']))
 
 HOOK_COMMITS = ['15057e9']
@@ -66,13 +66,13 @@ RULE_HISTORY = ("histories = a seeded structured array (as for C01) computed, th
                 "comparison boundaries / inherited (0) / user criteria, each preceded by a random set of cache-warming "
                 "queries, the last prune repeated; non-trivial = at least one structure was removed; distinct = distinct "
                 "(array, parameters, operation list)")
-reg(Prop('C07', ph.gen_item_C07, ph.eval_C07, 5000, 60000, RULE_HISTORY, ASSUME_COMPUTE,
+reg(Prop('C07', ph.gen_item_C07, ph.eval_C07, 5000, 250000, RULE_HISTORY, ASSUME_COMPUTE,
          ['C07_every_leaf_passes', 'C07_regions_preserved', 'C07_pixels_preserved', 'C07_trunk_step', 'C07_arity_preserved',
           'C07_ids_preserved', 'C07_nearest_surviving_ancestor', 'C07_own_transfer', 'C07_idempotent', 'C07_noop', 'C07_params_monotone', 'C07_params_zero_inherits']))
-reg(Prop('C08', ph.gen_item_C08, ph.eval_C08, 5000, 60000,
+reg(Prop('C08', ph.gen_item_C08, ph.eval_C08, 5000, 300000,
          "pairs (compute loosely then prune strictly) vs (compute strictly) on the same seeded array; modes: min_npix only, "
          "min_delta only, both; non-trivial = the prune removed a structure", ASSUME_COMPUTE, ['C08_counterexample_criterion', 'C08_ruleOrig_agrees_on_witness', 'C08_ruleOrig_eq_computeTime', 'C08_npix', 'C08_full', 'C08_npix_same_test', 'C08_zero_inherits']))
-reg(Prop('C14', ph.gen_item_C14, ph.eval_C14, 3000, 40000,
+reg(Prop('C14', ph.gen_item_C14, ph.eval_C14, 3000, 100000,
          "histories of 2-10 operations (cache-warming queries, prunes, Newick export, save/load in both formats, plotter "
          "construction) on a seeded computed dendrogram; after every step all observables are compared with the model "
          "(a function of the current forest) and with a dendrogram rebuilt from links, label map and data; non-trivial = a "
@@ -85,32 +85,32 @@ ASSUME_ANALYSIS = [
     "LAPACK eigh: real orthonormal eigenvectors of a real symmetric matrix (checked numerically on every run: residual, orthonormality, order)",
     "Astropy units implement dimensional analysis and the physical constants (compared numerically with the model's exact SI factors)",
 ]
-reg(Prop('C10', pa.gen_item_C10, pa.eval_C10, 5000, 60000,
+reg(Prop('C10', pa.gen_item_C10, pa.eval_C10, 5000, 400000,
          "seeded pixel sets in 1-4 dimensions (random / collinear / equal-weight / single pixel; positive dyadic weights; NaNs), a random "
          "direction, a translation vector, a random call order interleaved with calls on other live statistic objects; implementation floats vs "
          "the Lean model's exact rationals; non-trivial = at least two pixels", ASSUME_ANALYSIS, ['C10_mom0_sum', 'C10_mom1_weighted_mean', 'C10_mom2_covariance', 'C10_mom2_symm', 'C10_mom2_psd', 'C10_along_scale_invariant', 'C10_along_basis', 'C10_translate_mom0', 'C10_translate_mom1', 'C10_translate_mom2', 'C10_order_desc', 'ADProps::C10_memo_transparent', 'ADProps::C10_memo_transparent_empty']))
-reg(Prop('C13', pa.gen_item_C13, pa.eval_C13, 5000, 60000,
+reg(Prop('C13', pa.gen_item_C13, pa.eval_C13, 5000, 400000,
          "seeded value arrays x five input families x equivalent unit spellings x metadata values/units x output units; every third case is an "
          "error-table case (each way of omitting / mis-typing a required item, unsupported input, non-flux output); implementation vs Lean "
          "model (exact rationals) and vs the textbook formula computed independently", ASSUME_ANALYSIS, ['C13_additive', 'C13_linear', 'C13_unit_invariant', 'C13_output_unit', 'C13_temp_factor', 'C13_ok_iff', 'C13_unsupported']))
 
 import props_invariance as pi  # noqa: E402
 
-reg(Prop('C15', pi.gen_item_C15, pi.eval_C15, 1500, 16000,
+reg(Prop('C15', pi.gen_item_C15, pi.eval_C15, 1500, 40000,
          "each seeded case (incl. int8- and uint8-range data with large min_delta) is computed as given and again as: repeat, verbose, "
          "Fortran / strided / read-only layout, every integer and float dtype that holds the values exactly, and after a random prelude of "
          "compute / prune / plot / Newick / save on other dendrograms; all variants must give identical structures, ids, label map and "
          "Newick text, equal to the model; inputs must be unchanged", ASSUME_COMPUTE, ['C15_signif_width_free', 'C15_signif_old_eq_of_inRange', 'C15_signif_old_witness', 'C15_deterministic']))
-reg(Prop('C16', pi.gen_item_C16, pi.eval_C16, 2500, 30000,
+reg(Prop('C16', pi.gen_item_C16, pi.eval_C16, 2500, 120000,
          "each seeded case is transformed by a random axis permutation, a flip, an inserted unit axis, a NaN / below-threshold border, an affine "
          "map a*v+b (a a power of two) with mapped min_value / min_delta, a strictly increasing map (no pruning) and a raised threshold; "
          "hierarchy compared on mapped pixels for distinct values, trunk regions / assigned pixels / leaf count for ties; every run is also "
          "compared with the model", ASSUME_COMPUTE, ['C16_run_equivariant', 'C16_similarity_regions', 'C16_similarity_parent', 'C16_similarity_counts', 'C16_similarity_trunk', 'C16_affine_builtin', 'C16_rename_builtin', 'C16_axis_permutation', 'C16_flip', 'C16_unit_axis', 'C16_pad', 'C16_threshold_restriction']))
-reg(Prop('C17', pi.gen_item_C17, pi.eval_C17, 3000, 40000,
+reg(Prop('C17', pi.gen_item_C17, pi.eval_C17, 3000, 200000,
          "arrays in 1-4 dimensions with axes of length 1-6, a random non-empty subset of periodic axes (passed as int or list), cyclic shifts "
          "by 1, n-1, n and a random amount along a periodic axis; contour predicate with an independent adjacency (wrap on declared axes "
          "only), model correspondence", ASSUME_COMPUTE, ['C17_axis', 'C17_neighbours', 'C17_grid_symmetric', 'C17_shift_automorphism', 'C17_shift_invariance']))
-reg(Prop('C20', pi.gen_item_C20, pi.eval_C20, 4000, 40000,
+reg(Prop('C20', pi.gen_item_C20, pi.eval_C20, 4000, 300000,
          "pairs of dendrograms: same call twice, different min_delta/min_npix, different user criteria, one pixel changed, NaN mask changed, "
          "saved-and-loaded copy, pruned copy, reshaped data, different min_value, non-dendrogram objects; both argument orders",
          ASSUME_COMPUTE, ['C20_spec_iff', 'C20_canon_iff_same_partition', 'C20_symm', 'C20_refl', 'C20_impl_iff', 'C20_spec_implies_impl', 'C20_impl_ignores_structures', 'C20_fingerprint_weaker']))
@@ -123,23 +123,23 @@ import props_io as pio  # noqa: E402
 
 ASSUME_IO = ASSUME_COMPUTE + ["astropy.io.fits / h5py store and return arrays, strings and scalars faithfully (container libraries are trusted)",
                               "Matplotlib artists draw what they are given: the harness observes the arguments (segments, masks), not pixels"]
-reg(Prop('C09', pio.gen_item_C09, pio.eval_C09, 2500, 30000,
+reg(Prop('C09', pio.gen_item_C09, pio.eval_C09, 2500, 60000,
          "three streams: (1) seeded dendrograms (1-4 dims, float/int dtypes, NaNs, negative values, optionally pruned -> id gaps) saved and "
          "loaded in FITS / HDF5, explicit or auto-detected format, str or Path, upper-case extensions, with / without WCS, compared field by "
          "field and with the model's reload; (2) random ordered forests (multi-digit ids, negative / large / tiny heights) through the text "
          "writer format and parse_newick, compared with the model's step-by-step parser and its reference parser; (3) file names x modes x "
          "file signatures through the handler table, incl. unrecognisable targets", ASSUME_IO, ['C09_parseDescent_print', 'C09_parseImpl_print', 'C09_newick_roundtrip', 'C09_print_injective', 'C09_id_roundtrip', 'C09_fmt3_good', 'C09_regroup_correct', 'C09_reload_shape', 'C09_reload_own', 'C09_reload_labelMap', 'C09_reload_same_hierarchy', 'C09_reload_idempotent', 'C09_identify_write', 'C09_identify_read', 'C09_identify_unique', 'C09_identify_explicit']))
-reg(Prop('C18', pio.gen_item_C18, pio.eval_C18, 2500, 30000,
+reg(Prop('C18', pio.gen_item_C18, pio.eval_C18, 2500, 100000,
          "seeded dendrograms (computed / pruned / loaded), default and custom sort keys (id table, negated peak, pixel count), reverse on/off, "
          "a selected structure given as object / id / list with and without subtree, contour masks captured at Axes.contour; positions and "
          "line segments compared with the model (exact rationals)", ASSUME_IO, ['C18_sorted_by_key', 'C18_leaf_positions', 'C18_subtree_contiguous', 'C18_branch_between', 'C18_lines_vertical', 'C18_lines_mapping', 'C18_lines_count']))
 
-reg(Prop('C11', pa.gen_item_C11, pa.eval_C11, 4000, 50000,
+reg(Prop('C11', pa.gen_item_C11, pa.eval_C11, 4000, 300000,
          "seeded pixel sets in 3-D (all three vaxis) and 2-D, with / without spatial_scale and velocity_scale, linear WCS, metadata omissions "
          "and mistypings; major/minor sigma (through sum and product of squares), v_rms, centroids, exact area vs the Lean model's exact "
          "rationals; definitions (eigenvalues of the sky block, radius, ellipse area, position angle), units, scaling and vaxis "
          "invariance evaluated directly on the implementation", ASSUME_ANALYSIS, ['C11_vaxis_invariant', 'C11_sigma_sq_nonneg', 'C11_eigenvalues_real', 'C11_embed', 'C11_embed_old_witness', 'C11_vrms_def', 'C11_scale_linear']))
-reg(Prop('C12', pa.gen_item_C12, pa.eval_C12, 1500, 16000,
+reg(Prop('C12', pa.gen_item_C12, pa.eval_C12, 1500, 40000,
          "seeded 2-D and 3-D dendrograms (optionally pruned -> id gaps; optionally a sub-list of structures), default or random field subsets, "
          "verbose on/off; every row compared with the statistic of that structure alone (index arrays unwrapped by the Lean model of the "
          "heuristic); periodic data re-computed under a cyclic shift: shape statistics of narrow structures unchanged, centroid moved by "
@@ -149,7 +149,7 @@ PROPS['C12'].lib = 'ADPropsM'
 
 import props_viewer as pv  # noqa: E402
 
-reg(Prop('C19', pv.gen_item_C19, pv.eval_C19, 320, 3000,
+reg(Prop('C19', pv.gen_item_C19, pv.eval_C19, 320, 6000,
          "seeded 2-D and 3-D dendrograms (optionally pruned -> id gaps) opened in a head-less Agg viewer with a linked Scatter and 0-2 extra "
          "registered callbacks; sequences of 2-6 synthetic events (pixel clicks incl. unowned pixels, line picks of 1-2 lines, lassos around "
          "0-3 catalog rows, slice changes) over the three slots; after every event selections, subtree flags, highlighted lines, label text, "
